@@ -150,3 +150,119 @@ pub mod knobs {
     })
   }
 }
+
+/// Storage seam: shadows `redb::Database` inside `Index::open_with_event_sender`
+/// only. The builder forwards to redb unless a storage backend was registered
+/// for the index path, in which case the database lives in that backend.
+pub mod storage {
+  use {
+    redb::{DatabaseError, RepairSession, StorageBackend, StorageError},
+    std::{
+      collections::HashMap,
+      fmt::{self, Debug, Formatter},
+      io,
+      path::{Path, PathBuf},
+      sync::{Arc, LazyLock, Mutex},
+    },
+  };
+
+  static REGISTRY: LazyLock<Mutex<HashMap<PathBuf, Arc<dyn StorageBackend>>>> =
+    LazyLock::new(|| Mutex::new(HashMap::new()));
+
+  pub fn register(path: &Path, backend: Arc<dyn StorageBackend>) {
+    REGISTRY.lock().unwrap().insert(path.to_owned(), backend);
+  }
+
+  pub fn unregister(path: &Path) {
+    REGISTRY.lock().unwrap().remove(path);
+  }
+
+  fn registered(path: &Path) -> Option<Arc<dyn StorageBackend>> {
+    REGISTRY.lock().unwrap().get(path).cloned()
+  }
+
+  struct Shared(Arc<dyn StorageBackend>);
+
+  impl Debug for Shared {
+    fn fmt(&self, f: &mut Formatter) -> fmt::Result {
+      write!(f, "Shared")
+    }
+  }
+
+  impl StorageBackend for Shared {
+    fn len(&self) -> Result<u64, io::Error> {
+      self.0.len()
+    }
+
+    fn read(&self, offset: u64, out: &mut [u8]) -> Result<(), io::Error> {
+      self.0.read(offset, out)
+    }
+
+    fn set_len(&self, len: u64) -> Result<(), io::Error> {
+      self.0.set_len(len)
+    }
+
+    fn sync_data(&self) -> Result<(), io::Error> {
+      self.0.sync_data()
+    }
+
+    fn write(&self, offset: u64, data: &[u8]) -> Result<(), io::Error> {
+      self.0.write(offset, data)
+    }
+
+    fn close(&self) -> Result<(), io::Error> {
+      self.0.close()
+    }
+  }
+
+  pub struct Database;
+
+  impl Database {
+    pub fn builder() -> Builder {
+      Builder {
+        inner: redb::Database::builder(),
+      }
+    }
+  }
+
+  pub struct Builder {
+    inner: redb::Builder,
+  }
+
+  impl Builder {
+    pub fn set_cache_size(&mut self, bytes: usize) -> &mut Self {
+      self.inner.set_cache_size(bytes);
+      self
+    }
+
+    pub fn set_repair_callback(
+      &mut self,
+      callback: impl Fn(&mut RepairSession) + 'static,
+    ) -> &mut Self {
+      self.inner.set_repair_callback(callback);
+      self
+    }
+
+    pub fn open(&self, path: impl AsRef<Path>) -> Result<redb::Database, DatabaseError> {
+      match registered(path.as_ref()) {
+        None => self.inner.open(path),
+        Some(backend) => {
+          if backend.len()? == 0 {
+            Err(DatabaseError::Storage(StorageError::Io(io::Error::from(
+              io::ErrorKind::NotFound,
+            ))))
+          } else {
+            self.inner.create_with_backend(Shared(backend))
+          }
+        }
+      }
+    }
+
+    pub fn create(&self, path: impl AsRef<Path>) -> Result<redb::Database, DatabaseError> {
+      match registered(path.as_ref()) {
+        None => self.inner.create(path),
+        Some(backend) => self.inner.create_with_backend(Shared(backend)),
+      }
+    }
+  }
+}
